@@ -407,19 +407,7 @@ pub fn add_sections(rep: &mut Report, prop: &str, thorough: bool, conformant_onl
         let z = zoo.iter().find(|z| z.kind == KeyKind::Ed25519 && z.format == KeyFormat::Pkcs8 && z.name.contains("_1")).expect("ed25519_1");
         if let Ok(kp) = rc_load(z, Alg::Ed25519) {
             let kpub = z.key_pub(Alg::Ed25519);
-            let mut oids: Vec<Vec<u64>> = Vec::new();
-            for b in 0..=39u64 {
-                oids.push(vec![0, b, 5]);
-                oids.push(vec![1, b, 5]);
-            }
-            for b in (0..=300u64).chain([16303, 16304, 2097071, 2097072, 4294967295, 4294967296, u64::MAX - 80]) {
-                oids.push(vec![2, b, 5]);
-                oids.push(vec![2, b]);
-            }
-            for t in [0u64, 1, 127, 128, 16383, 16384, 2097151, 2097152, 4294967295, 4294967296, u64::MAX] {
-                oids.push(vec![1, 3, 6, 1, 4, 1, 55555, t]);
-                oids.push(vec![2, 47, t, 1]);
-            }
+            let oids = crate::corpus::first_octet_oids();
             let sec = Section::new("csr/roundtrip/object identifiers", &format!("{} object identifiers (every first-octet value; second arcs of joint-iso-itu-t up to 300 and at the length boundaries; later arcs at the base-128 boundaries) as custom attribute type and as otherName type: the request says them (reference decoder) and from_der returns them", oids.len())).with_deadline(cap);
             run::sweep_cases(&sec, &oids, &|o| format!("oid {:?}", o), &|o| {
                 let mut st = CertState::default();
